@@ -91,7 +91,7 @@ def worker(wid, jobs, results):
         else:
             hits = []
             for prop in "C01 C02 C03 C05 C06 C07 C08 C09 C10 C11 C12 C13 C14 C15 C16 C17 C18 C19".split():
-                rc2, o2 = run(f"./check {prop} --repo {d} --no-evidence 2>&1 | grep -E 'violation' | head -3", "/verif", 600)
+                rc2, o2 = run(f"./check {prop} --repo {d} --no-evidence 2>&1 | grep -E '^ +violation ' | head -3", "/verif", 600)
                 if o2.strip():
                     hits.append(prop + ":" + o2.strip().split("\n")[0].strip()[:120])
             rec["status"] = "reported" if hits else "SILENT"
